@@ -35,6 +35,7 @@ type relayPar struct {
 	Cu    uint64 `json:"cu"`
 	Total uint64 `json:"total"`
 	Fail  bool   `json:"fail"`
+	Cons  int    `json:"cons"` // which consumer of the project sends the relay (1 or 2)
 }
 
 type updPar struct {
@@ -86,6 +87,7 @@ type rec struct {
 	Used    uint64            `json:"used"`
 	Missing uint64            `json:"missing"`
 	Reg     bool              `json:"reg"`
+	Npswc   int               `json:"npswc"` // project entries (ProviderSessionsWithConsumerProject objects) seen so far
 	Blocked uint64            `json:"blocked"`
 	Cur     uint64            `json:"cur"`
 	Mine    map[string]uint64 `json:"mine"`
@@ -93,20 +95,23 @@ type rec struct {
 }
 
 const (
-	consumer = "consumer1"
-	project  = "project1"
+	consumer  = "consumer1"
+	consumer2 = "consumer2"
+	project   = "project1"
 	// allowedThreshold*maxcu must equal par.misscap (checked)
 	stepWait = 3 * time.Second
 )
 
 // hook point -> spec label
 var hookLabel = map[string]string{
-	"psc_before_lock": "create",
-	"add_cu_read":     "addcas",
-	"sub_cu_read":     "subcas",
-	"usc_loaded":      "uloaded",
-	"usc_swapped":     "uswapped",
-	"usc_parent_read": "uparent", // exists only in the code before fix F8
+	"reg_before_register":   "regnew",
+	"reg_before_getsession": "regget",
+	"psc_before_lock":       "create",
+	"add_cu_read":           "addcas",
+	"sub_cu_read":           "subcas",
+	"usc_loaded":            "uloaded",
+	"usc_swapped":           "uswapped",
+	"usc_parent_read":       "uparent", // exists only in the code before fix F8
 }
 
 // ---------------------------------------------------------------------------------------------
@@ -186,7 +191,8 @@ func classify(err error) string {
 		return "cu_mismatch"
 	case lavasession.SessionIdNotFoundError.Is(err) || strings.Contains(m, "SessionIdNotFound"):
 		return "no_session"
-	case strings.Contains(m, "EpochIsNotRegistered") || strings.Contains(m, "ConsumerIsNotRegistered"):
+	case lavasession.EpochIsNotRegisteredError.Is(err) || lavasession.ConsumerIsNotRegisteredError.Is(err) ||
+		strings.Contains(m, "IsNotRegistered") || strings.Contains(m, "is not registered"):
 		return "not_registered"
 	}
 	return "error:" + m
@@ -195,7 +201,8 @@ func classify(err error) string {
 type world struct {
 	par   params
 	psm   *lavasession.ProviderSessionManager
-	pswc  *lavasession.ProviderSessionsWithConsumerProject
+	pswc  *lavasession.ProviderSessionsWithConsumerProject   // the entry whose session map is projected
+	pswcs []*lavasession.ProviderSessionsWithConsumerProject // every entry ever seen (a second one is never expected)
 	thr   float64
 	procs map[string]*proc
 	names []string
@@ -205,11 +212,15 @@ type world struct {
 
 func (w *world) runRelay(p *proc, r relayPar) string {
 	ctx := context.Background()
+	cons := consumer
+	if r.Cons == 2 {
+		cons = consumer2
+	}
 	p.park("start")
-	sess, err := w.psm.GetSession(ctx, consumer, w.par.Epoch, r.Sid, r.Rn)
+	sess, err := w.psm.GetSession(ctx, cons, w.par.Epoch, r.Sid, r.Rn)
 	if err != nil && lavasession.ConsumerNotRegisteredYet.Is(err) {
 		p.park("register")
-		sess, err = w.psm.RegisterProviderSessionWithConsumer(ctx, consumer, w.par.Epoch, r.Sid, r.Rn, w.par.Maxcu, 1, project)
+		sess, err = w.psm.RegisterProviderSessionWithConsumer(ctx, cons, w.par.Epoch, r.Sid, r.Rn, w.par.Maxcu, 2, project)
 	}
 	if err != nil {
 		return classify(err)
@@ -314,38 +325,60 @@ func (w *world) project(r *rec) {
 	r.Pc = map[string]string{}
 	r.Out = map[string]string{}
 	r.Mine = map[string]uint64{}
-	if w.pswc == nil {
-		if p, err := w.psm.IsActiveProject(w.par.Epoch, project); err == nil {
-			w.pswc = p
+	seen := func(p *lavasession.ProviderSessionsWithConsumerProject) {
+		if p == nil {
+			return
 		}
+		for _, q := range w.pswcs {
+			if q == p {
+				return
+			}
+		}
+		w.pswcs = append(w.pswcs, p)
 	}
 	r.Reg = false
 	if p, err := w.psm.IsActiveProject(w.par.Epoch, project); err == nil && p != nil {
 		r.Reg = true
-		if w.pswc != p {
-			r.Ev = "second_pswc" // never expected: one pswc per behaviour
+		seen(p)
+		w.pswc = p // the live entry
+	}
+	for _, n := range w.names {
+		if s := w.procs[n].sess; s != nil {
+			seen(s.VerifParent())
 		}
 	}
+	for _, s := range w.order {
+		seen(s.VerifParent())
+	}
+	if w.pswc == nil && len(w.pswcs) > 0 {
+		w.pswc = w.pswcs[len(w.pswcs)-1]
+	}
+	r.Npswc = len(w.pswcs)
 	r.Smap = [][2]uint64{}
 	r.Objs = []obj{}
-	if w.pswc != nil {
-		w.pswc.Lock.RLock()
-		sids := make([]uint64, 0, len(w.pswc.Sessions))
-		for sid := range w.pswc.Sessions {
+	// sessions of every entry get their index in order of first observation (entries in order seen, sids ascending)
+	for _, q := range w.pswcs {
+		q.Lock.RLock()
+		sids := make([]uint64, 0, len(q.Sessions))
+		for sid := range q.Sessions {
 			sids = append(sids, sid)
 		}
 		sort.Slice(sids, func(i, j int) bool { return sids[i] < sids[j] })
-		// objects get their index in order of first observation: map objects (by sid) first, then held ones
 		for _, sid := range sids {
-			w.objID(w.pswc.Sessions[sid])
+			w.objID(q.Sessions[sid])
 		}
-		for _, sid := range sids {
-			r.Smap = append(r.Smap, [2]uint64{sid, w.objID(w.pswc.Sessions[sid])})
+		if q == w.pswc {
+			for _, sid := range sids {
+				r.Smap = append(r.Smap, [2]uint64{sid, w.objID(q.Sessions[sid])})
+			}
 		}
-		w.pswc.Lock.RUnlock()
-		r.Used = clamp(w.pswc.VerifUsedComputeUnits(), &r.Clamped)
-		r.Missing = clamp(w.pswc.VerifMissingComputeUnits(), &r.Clamped)
+		q.Lock.RUnlock()
+		// used / missing CU accepted for the project in this epoch = sum over all its entries
+		r.Used += q.VerifUsedComputeUnits()
+		r.Missing += q.VerifMissingComputeUnits()
 	}
+	r.Used = clamp(r.Used, &r.Clamped)
+	r.Missing = clamp(r.Missing, &r.Clamped)
 	for _, n := range w.names {
 		p := w.procs[n]
 		r.Pc[n] = p.pc
